@@ -6,11 +6,13 @@ from typing import Any, Dict, List
 from ..core import Ctx, dec
 from .. import outputcrawl as oc
 
-THEOREMS = ["Output.url_resolves_iff", "Output.own_page_exists", "Output.member_anchor_exists", "Output.links_resolve",
-            "Output.links_resolve_partial", "Output.links_resolve_counterexample_superseded",
-            "Output.links_resolve_counterexample_hidden", "Output.links_resolve_counterexample_context",
-            "Output.inhierarchy_counterexample", "Output.shorten_resolves", "Output.superseded_not_reachable",
-            "Output.inside_superseded_not_reachable", "Output.mem_reached_iff", "Output.origin"]
+THEOREMS = ["Output.url_resolves_iff", "Output.url_resolves_iff_visible", "Output.own_page_exists",
+            "Output.member_anchor_exists", "Output.links_resolve", "Output.shorten_resolves", "Output.ctx_ok",
+            "Output.visible_reachable", "Output.superseded_invisible", "Output.superseded_not_reachable",
+            "Output.inside_superseded_not_reachable", "Output.mem_reached_iff", "Output.origin", "Output.mem_emits",
+            "Output.links_resolve_counterexample_superseded_old", "Output.links_resolve_counterexample_hidden_old",
+            "Output.links_resolve_counterexample_context_old", "Output.inhierarchy_counterexample_old",
+            "Output.inhierarchy_counterexample_collision_old"]
 RULE = ("hand-written scenario projects for every situation the quantifier names (inheritance, inherited docstrings, "
         "re-exports, duplicates 'C 0', hidden and private objects, nested classes, several roots) plus random projects "
         "of harness.gen.project.Gen with planted L{...} cross-references, each under a random list of --privacy rules "
@@ -32,18 +34,17 @@ ASSUMPTIONS = [
     "not modelled: compact module list (> 50 submodules), letter anchors of nameIndex.html, docstring tables of contents, "
     "zope.interface rows, extra_info other than the constructor note, --html-subject (the crawl oracle still sees them)",
     "a project with no visible object at all aborts in lunr (ZeroDivisionError) before writing: such runs are counted "
-    "(run-crash) and skipped - no output exists",
+    "(run-crash) and skipped - no output exists (proposed repair: fixes/C01-empty-search-corpus.diff)",
 ]
 PARTIAL = {
-    "Output.links_resolve": "full for the rows whose guard implies visible and reached through contents (table, inittable, "
-                            "detail, sidebar direct items and titles, heading, module-index below the roots)",
-    "Output.links_resolve_partial": "all rows, under: target visible, reached through contents, and the link's shortening "
-                                    "context is the page it is written into (false for superseded duplicates, hidden "
-                                    "targets of unguarded rows, inherited docstrings - see the three counterexamples)",
+    "Output.inHierarchy": "no theorem: that the 'View In Hierarchy' link (classIndex.html#<fullName>) of every class page has "
+                          "its anchor is checked by the correspondence (streams inhierarchy / classanchors) and the direct oracle "
+                          "only; the two ways it failed are the `inhierarchy_counterexample_*_old` witnesses",
 }
-EXPLANATION = ("Output model = url/page_object/isVisible/taglink/_writeDocsFor + every link producer with its guard. The full "
-               "statement 'every emitted link resolves' is false of the current code (known findings); it is proved for the "
-               "guarded rows and, for all rows, under explicit hypotheses, with counterexamples for each excluded case.")
+EXPLANATION = ("Output model = url/page_object/isVisible/taglink/_writeDocsFor + every link producer with its guard, following the "
+               "fixed code (cb98646 superseded duplicates are invisible, aaed9bd taglink guard, 1da744b docstring link context, "
+               "97be2c0 class-index dict, 07382d3 parentMod of moved members). `links_resolve` is proved at full strength for "
+               "every producer row; the pre-fix behaviour is kept as `...Old` definitions with `_old` counterexamples.")
 
 
 def nontrivial(res) -> bool:
